@@ -33,7 +33,7 @@ import (
 
 const (
 	appUnixPath  = "/nonexistent-verif-dir/rend.sock" // never created: the listener is in memory
-	appLockSlot  = 1001 // of rend's 1024 lock-set slots
+	appLockSlot  = 1001                               // of rend's 1024 lock-set slots
 	appMainPort  = 11211
 	appBatchPort = 11212
 )
